@@ -1,4 +1,4 @@
-import CollectionsC.Proofs.ArrayZip
+import CollectionsC.Proofs.ArrayUncond
 /-! # C07 (array part) — array iterators traverse completely and in order; one-step mutation is safe
 
 Statements only (helpers: `Proofs/ArrayIter.lean`, `Proofs/ArrayStep.lean`).  The concrete cursor is
@@ -69,6 +69,31 @@ theorem add_sim (a : Arr) (it : ArrIter) (c : Cursor) (x : Nat) (m : Mem) (hinv 
     rcases hb.1 with ⟨h, _⟩ | ⟨h, _⟩
     · exact Or.inl h
     · exact Or.inr h
+
+/-- **when `iter_add` may be blocked**: only on an exactly full array, with `CC_ERR_ALLOC` only when the
+array's own allocator refused the growth step, with `CC_ERR_MAX_CAPACITY` only at the capacity limit
+(this pins the `blocked` oracle of `program_refines`, step by step) -/
+theorem add_blocked_only_if (a : Arr) (it : ArrIter) (c : Cursor) (x : Nat) (m : Mem) (hinv : a.Inv)
+    (hs : Arr.Sim a it c) (h : (a.iterAdd it x m).1 ≠ .ok) :
+    a.size = a.capacity ∧
+    (((a.iterAdd it x m).1 = .errAlloc ∧ (m.allocT a.triple).1 = false) ∨
+     ((a.iterAdd it x m).1 = .errMaxCapacity ∧ a.AtLimit)) := by
+  rcases (Arr.iterAdd_sim a it c x m hinv hs).1 with ⟨ok, _⟩ | ⟨hb, _⟩
+  · exact absurd ok h
+  · exact ⟨hb.2, hb.1⟩
+
+/-- **the ledger of an iterator program, for either allocator triple**: re-allocating insertions
+included, the live-block count of the array's own triple is what it was, the other allocator's counters
+are untouched, hence both `live` and `liveLibc` are balanced; the triple is kept -/
+theorem program_ledger (ops : List IterOp) (a : Arr) (it : ArrIter) (c : Cursor) (m : Mem) (hinv : a.Inv)
+    (hs : Arr.Sim a it c) :
+    Arr.own a.triple (a.iterRun it ops m).2.2.2 = Arr.own a.triple m ∧
+    Arr.Foreign a.triple m (a.iterRun it ops m).2.2.2 ∧
+    (a.iterRun it ops m).2.2.2.live = m.live ∧ (a.iterRun it ops m).2.2.2.liveLibc = m.liveLibc ∧
+    (a.iterRun it ops m).2.1.triple = a.triple := by
+  obtain ⟨l1, l2, l3⟩ := Arr.iterRun_led ops a it c m hinv hs
+  obtain ⟨b1, b2⟩ := Arr.iterRun_balanced ops a it c m hinv hs
+  exact ⟨l1, l2, b1, b2, l3⟩
 
 /-- replace: exactly the element yielded last is replaced; size and every other element intact -/
 theorem replace_sim (a : Arr) (it : ArrIter) (c : Cursor) (x : Nat) (m : Mem) (hinv : a.Inv) (hs : Arr.Sim a it c) :
@@ -146,6 +171,16 @@ theorem zip_program_refines (ops : List ZipOp) (a1 a2 : Arr) (it : ArrIter) (z :
       (Arr.zipStep a1 a2 it op m).2.2.2.1 _ (Arr.zipStep a1 a2 it op m).2.2.2.2 s3 s4 s2
     simp only [Arr.zipRun, ZipCursor.run, List.map_cons, List.headD_cons, List.tail_cons]
     exact ⟨by rw [← i1, ← s1], i2, i3, i4, by rw [i5, s7], by rw [i6, s8]⟩
+
+/-- **the ledger of a zip program over two arrays of any allocator triples** (equal or mixed): every
+growth step allocates and frees through its own array's triple, so both `live` and `liveLibc` are what
+they were -/
+theorem zip_program_ledger (ops : List ZipOp) (a1 a2 : Arr) (it : ArrIter) (z : ZipCursor) (m : Mem)
+    (h1 : a1.Inv) (h2 : a2.Inv) (hs : Arr.ZSim a1 a2 it z) :
+    (Arr.zipRun a1 a2 it ops m).2.2.2.2.live = m.live ∧ (Arr.zipRun a1 a2 it ops m).2.2.2.2.liveLibc = m.liveLibc ∧
+    (Arr.zipRun a1 a2 it ops m).2.2.2.2.fault = m.fault :=
+  ⟨(zip_program_refines ops a1 a2 it z m h1 h2 hs).2.2.2.2.1, Arr.zipRun_liveLibc ops a1 a2 it z m h1 h2 hs,
+   (zip_program_refines ops a1 a2 it z m h1 h2 hs).2.2.2.2.2⟩
 
 /-- a zip call that reports an error — nothing yielded yet, already removed, end reached, growth
 refused — leaves both contents, the second array and the cursor as they were -/
